@@ -299,7 +299,9 @@ func (l *List) Accept(sta funcGen.Stack[Value]) (*List, error) {
 		return nil, err
 	}
 	return NewListFromIterable(func(st funcGen.Stack[Value]) iterator.Producer[Value] {
-		return panicOnCaller(iterator.FilterAuto[Value](l.iterable(funcGen.NewEmptyStackBelow(st)), func() func(v Value) (bool, error) {
+		// a panic of the list being read is passed on as an error element: it must not
+		// unwind the loop that feeds the parallel workers, they would never be released
+		return panicOnCaller(iterator.FilterAuto[Value](recoverInProducer(l.iterable(funcGen.NewEmptyStackBelow(st))), func() func(v Value) (bool, error) {
 			s := funcGen.NewEmptyStackBelow(st)
 			return func(v Value) (accepted bool, err error) {
 				defer recoverAsError(&err)
@@ -322,7 +324,9 @@ func (l *List) Map(sta funcGen.Stack[Value]) (*List, error) {
 		return nil, err
 	}
 	return NewListFromSizedIterable(func(st funcGen.Stack[Value]) iterator.Producer[Value] {
-		return panicOnCaller(iterator.MapAuto[Value, Value](l.iterable(funcGen.NewEmptyStackBelow(st)), func() func(i int, v Value) (Value, error) {
+		// a panic of the list being read is passed on as an error element: it must not
+		// unwind the loop that feeds the parallel workers, they would never be released
+		return panicOnCaller(iterator.MapAuto[Value, Value](recoverInProducer(l.iterable(funcGen.NewEmptyStackBelow(st))), func() func(i int, v Value) (Value, error) {
 			s := funcGen.NewEmptyStackBelow(st)
 			return func(i int, v Value) (mapped Value, err error) {
 				defer recoverAsError(&err)
